@@ -140,6 +140,8 @@ def simulate(module, cfg, tag, num, depth, seed, env=None, timeout=3600, workers
     if m2:
         r.violated, r.kind = m2.group(1), 'action'
         r.trace = parse_trace(out)
+    if 'TLC threw an unexpected exception' in out or 'Error: Parsing or semantic analysis failed' in out:
+        raise TLCError('TLC simulation failed (%s/%s):\n%s' % (module, cfg, out[-3000:]))
     m = re.search(r'The number of states generated: (\d+)', out)
     if m:
         r.generated = int(m.group(1))
